@@ -3,6 +3,7 @@
   every form.  Property theorems only; helper lemmas live in Rtp/Proofs/H265*.lean.
 -/
 import Rtp.Proofs.H265Fields
+import Rtp.Proofs.H265Parse
 namespace Rtp.Props.C14
 open Rtp Rtp.Model.H265 Rtp.Pred Rtp.Spec.Rfc7798
 
@@ -45,5 +46,32 @@ example : tsciView (tsciWord 0xAA 0xBB 0x80) = { tl0 := 0xAA, irap := 0xBB, s :=
 
 example : hdrAcc 0x6201 = { f := false, type := 49, vcl := false, layer := 0, tid := 1, agg := false, fu := true, paci := false } := by
   decide
+
+/-! ## c14_decoder — H265Packet decodes every well-formed payload structure to its fields -/
+
+/-- For every well-formed single NAL unit, aggregation, fragmentation and PACI payload (with the
+    DONL/DOND fields iff the receiver is told to expect them), `H265Packet.Unmarshal` succeeds and all
+    accessors — payload header fields, DONL/DOND, NALU sizes, S/E/FuType, the PACI fields, PHES,
+    payload and the TSCI extension — return exactly the encoded values; IsPartitionHead is true
+    except on a non-first FU. -/
+theorem c14_decoder (mode : Bool) (desc : Packet) (hwf : desc.WF mode = true) :
+    C14.decOk mode desc none (encode desc) (decObs mode (encode desc)) = true := by
+  simp only [C14.decOk, decObs, decode_encode mode desc hwf, head_encode mode desc hwf, beq_self_eq_true,
+    Bool.and_self]
+
+/-- the same, spelled out -/
+theorem c14_decoder_spec (mode : Bool) (desc : Packet) (hwf : desc.WF mode = true) :
+    decode mode (some (encode desc)) = .ok { pkt := desc, tsci := desc.tsci, sizesOk := true } ∧
+    isPartitionHead (encode desc) = C14.headSpec desc :=
+  ⟨decode_encode mode desc hwf, head_encode mode desc hwf⟩
+
+/-- non-vacuity: an aggregation packet with DONL/DOND, and a PACI packet carrying a TSCI -/
+example : (Packet.ap ⟨false, 48, 0, 1⟩ (some 7) [0x40, 1, 9] [(some 0, [0x42, 1]), (some 1, [0x44, 1, 5, 6])]).WF true = true := by
+  decide
+example : encode (.ap ⟨false, 48, 0, 1⟩ (some 7) [0x40, 1, 9] [(some 0, [0x42, 1])]) =
+    [0x60, 1, 0, 7, 0, 3, 0x40, 1, 9, 0, 0, 2, 0x42, 1] := by decide
+example : (Packet.paci ⟨false, 50, 0, 1⟩ false 19 3 true false false false [0xAA, 0xBB, 0x80] [1, 2]).WF false = true ∧
+    (Packet.paci ⟨false, 50, 0, 1⟩ false 19 3 true false false false [0xAA, 0xBB, 0x80] [1, 2]).tsci =
+      some ⟨0xAA, 0xBB, true, false, 0⟩ := by decide
 
 end Rtp.Props.C14
